@@ -110,6 +110,20 @@ Theorem c17_rows :
 Proof. exact cb_run_spec. Qed.
 Print Assumptions c17_rows.
 
+(* An experiment that is interrupted and resumed any number of times (Tuner.load + run()
+   again, possibly under another results root): every phase = on_tuning_start, its
+   deliveries, on_tuning_end, on the SAME callback object (it travels in tuner.dill with
+   its rows).  The table after the last phase has exactly one row per delivery of ALL
+   phases, in order, each reflecting its delivery, and the file holds exactly these rows. *)
+Theorem c17_rows_across_resume :
+  forall (add_wallclock_time : bool) (phases : list (list event)), phases <> [] ->
+    exists s, cb_run_phases add_wallclock_time phases = Some s /\
+              cb_results s = map (make_row add_wallclock_time) (concat phases) /\
+              Forall2 (row_reflects add_wallclock_time) (concat phases) (cb_results s) /\
+              cb_disk s = Some (cb_results s).
+Proof. exact cb_run_phases_spec. Qed.
+Print Assumptions c17_rows_across_resume.
+
 (* at any moment before the end the file (if written) holds a prefix of the rows *)
 Theorem c17_rows_disk_prefix :
   forall (add_wallclock_time : bool) (evs : list event) (s : cb_state),
